@@ -28,13 +28,15 @@ rm -f $W/$demo
 echo "CONFIRMED $pid/$mk: compiles, suite passes, demo fails with patch and passes without"
 # run the checks against the clean and the patched scratch tree; only NEW violations count
 cd /verif
-viol() { # prints "id rule construct" lines for every violated/undecided obligation
-  for id in $(./bin/rlcheck list); do
-    ./bin/rlcheck check $id --repo $W --verif /tmp/verif-seed 2>&1 | grep "violated:\|undecided:" | sed "s/^ *[a-z]*: rule=\([^ ]*\) construct=\(.*\) at [^ ]*: .*/$id \1 \2/"
-  done | sort -u
+viol() { # prints "id rule construct" lines for every violated/undecided obligation (checks run in parallel)
+  ./bin/rlcheck list | tr " " "\n" | grep . | xargs -P 8 -I{} sh -c "./bin/rlcheck check {} --repo $W --verif /tmp/verif-seed-{} 2>&1 | grep 'violated:\|undecided:' | sed 's/^ *[a-z]*: rule=\([^ ]*\) construct=\(.*\) at [^ ]*: .*/{} \1 \2/'" | sort -u
 }
+for id in $(./bin/rlcheck list); do mkdir -p /tmp/verif-seed-$id/evidence; : > /tmp/verif-seed-$id/known_findings.jsonl; done
+head=$(git -C /repo rev-parse --short HEAD); binsum=$(md5sum ./bin/rlcheck | cut -c1-8)
+basef=/tmp/seed_base_${head}_${binsum}.txt
 (cd $W && git reset -q --hard && git clean -fdq)
-viol > /tmp/seed_base.txt
+[ -s $basef ] || viol > $basef
+cp $basef /tmp/seed_base.txt
 (cd $W && git apply $d/patch.diff)
 viol > /tmp/seed_mut.txt
 new=$(comm -13 /tmp/seed_base.txt /tmp/seed_mut.txt)
